@@ -15,7 +15,7 @@ LEVEL = "exploration"
 RULE = ("hostile inputs - random bytes (several distributions, 0..64 KiB), valid streams with bit flips / byte inserts / deletes "
         "/ splices / truncation, and structure-aware hostile streams from the independent wire encoder (declared frame, row and "
         "string lengths up to 2^63, table sizes up to 2^32, 10^5 entries, quoted triples nested past the protobuf recursion "
-        "limit, options rows in odd places, 10^3..10^6 empty frames alone and in front of a well-formed frame (3*10^5 of them always through all six entry points, 10^6 through two), invalid UTF-8, unknown fields, groups) - are fed from BytesIO, "
+        "limit, options rows in odd places, well-formed streams whose strings (language tag, lexical form, datatype, name, prefix, blank-node label, stream name, namespace name) are long single-class runs ending in one odd character, 10^3..10^6 empty frames alone and in front of a well-formed frame (3*10^5 of them always through all six entry points, 10^6 through two), invalid UTF-8, unknown fields, groups) - are fed from BytesIO, "
         "real files and non-seekable raw / buffered sources to the six parse entry points inside a watchdogged child process with faulthandler. Per input the "
         "child journals start/end, outcome, CPU time, a logical step count (sys.monitoring PY_START inside pyjelly) and the "
         "growth of the resident high-water mark. Violations: interpreter killed by a signal; a non-Exception BaseException; "
@@ -113,7 +113,7 @@ def hostile(rng):
     big = rng.choice([1 << 20, (1 << 31) - 1, 1 << 31, 1 << 32, 1 << 40, 1 << 62, (1 << 63) - 1, (1 << 64) - 1])
     kind = rng.choice(["frame-length", "row-length", "string-length", "table-size", "many-entries", "deep-nesting",
                        "odd-options", "empty-frames", "bad-utf8", "unknown-fields", "many-metadata", "nondelimited-huge",
-                       "entry-id-huge", "ref-huge", "options-repeat-flood"])
+                       "entry-id-huge", "ref-huge", "options-repeat-flood", "awkward-strings", "awkward-strings"])
     head = wire.enc_stream([{"rows": [("options", _opts())]}], True)
     if kind == "frame-length":
         return kind, rng.choice([b"", head]) + wire.enc_varint(big) + rng.randbytes(rng.randint(0, 40))
@@ -160,6 +160,27 @@ def hostile(rng):
         frames = [{"rows": [("options", _opts())], "metadata": [(f"k{i}", b"v" * 10) for i in range(500)]}] + \
             [{"rows": [], "metadata": [("k", b"v")]} for _ in range(2000)]
         return kind, wire.enc_stream(frames, True)
+    if kind == "awkward-strings":
+        # well-formed stream whose STRINGS are what trips pattern matching / validation code: long runs of one class of
+        # character with a single character of another class at the end (or start), in every string-valued field
+        n = rng.choice([24, 30, 48, 64, 200, 3000])
+        run = rng.choice(["a", "a", "A1", "a-", "a_", "-", " ", "\t", "0", "é", ".", "/", "#", ":", "%41"])
+        odd = rng.choice(["!", "!", " ", "\n", "\x00", "é", "<", ">", "\"", "\\", "{", "@", "-", "_"])
+        bait = (run * n)[:max(n, len(run))] + odd
+        if rng.random() < .2:
+            bait = odd + bait
+        where = rng.choice(["lang", "lang", "lex", "datatype", "name", "prefix", "bnode", "stream-name", "ns-name", "all"])
+        def pick(w, default):
+            return bait if where in (w, "all") else default
+        rows = [("options", _opts(stream_name=pick("stream-name", ""), max_prefix_table_size=8, max_datatype_table_size=8)),
+                ("prefix", {"id": 0, "value": pick("prefix", "http://e/")}), ("name", {"id": 0, "value": pick("name", "x")}),
+                ("datatype", {"id": 0, "value": pick("datatype", "http://e/dt")})]
+        if where in ("ns-name", "all"):
+            rows[0] = ("options", _opts(stream_name=pick("stream-name", ""), max_prefix_table_size=8, max_datatype_table_size=8, version=2))
+            rows.append(("namespace", {"name": bait, "value": ("iri", 1, 1)}))
+        rows.append(("triple", {"s": ("bnode", pick("bnode", "b")), "p": ("iri", 1, 0), "o": ("lit", pick("lex", "v"), "lang", pick("lang", "en"))}))
+        rows.append(("triple", {"s": ("iri", 0, 1), "p": ("iri", 0, 1), "o": ("lit", pick("lex", "v"), "dt", 1)}))
+        return kind, wire.enc_stream([{"rows": rows}], True)
     if kind == "nondelimited-huge":
         return kind, b"\x0a" + wire.enc_varint(big) + b"\x0a\x02\x10\x01"
     if kind == "entry-id-huge":
